@@ -246,6 +246,16 @@ func genEIT() (out []tableCase) {
 			{EventID: 1, StartTime: dvbTimes[2], Duration: time.Hour, RunningStatus: 4, Descriptors: fixLens(ds)},
 			{EventID: 2, StartTime: dvbTimes[3], Duration: time.Minute, RunningStatus: 1, Descriptors: descRot(1, 1)}}}, ref.SecHdr{CNI: true})
 	}
+	// a schedule: several events on one day (same MJD, different times of day, one time twice), into the next day
+	{
+		day := time.Date(1993, 10, 13, 0, 0, 0, 0, time.UTC)
+		d := &astits.EITData{ServiceID: 0x77, TransportStreamID: 2, OriginalNetworkID: 3, LastTableID: 0x50}
+		for i, off := range []time.Duration{6*time.Hour + 30*time.Minute + 15*time.Second, 13*time.Hour + 15*time.Minute + 30*time.Second, 13*time.Hour + 15*time.Minute + 30*time.Second,
+			23*time.Hour + 59*time.Minute + 59*time.Second, 24*time.Hour + time.Second, 0, 12 * time.Hour} {
+			d.Events = append(d.Events, &astits.EITDataEvent{EventID: uint16(i + 1), StartTime: day.Add(off), Duration: time.Duration(i+1) * 25 * time.Minute, RunningStatus: uint8(i % 8), Descriptors: descRot(i, i%2)})
+		}
+		mk("events of one day", d, ref.SecHdr{TableID: 0x50, CNI: true})
+	}
 	// sections at and next to the 4096-byte limit (section_length 4093): 339 events without descriptors are 4086 bytes,
 	// a private descriptor on the last event makes up the rest - the unit spans 23 packets
 	for _, total := range []int{4096, 4095, 4094, 4090, 4060, 4048, 4047} {
